@@ -17,6 +17,9 @@ def run(ctx):
     stages.chan_family(ctx, ["C03."], lambda s: len(s["puts"]) > 0)
     # manager level: which message / callback produces which completion signal; finalization hold and release
     stages.mgr_family(ctx, ["C03."], ["all"], lambda s: s["stim"]["kind"] in ("UpdateValidation", "OnChannelCompleted") or s["stim"]["msg"]["kind"] == "Complete", quick_n=4000, model=not ctx.quick(), sims=True, invariants=["M_C02_Final"], keep=lambda l: any(k in l for k in ('"kind":"UpdateValidation"', '"kind":"OnChannelCompleted"', '"kind":"Complete"')))
+    # two-node replays of Sys.tla behaviours on two real managers: C03 rules of SysJudge and of the manager judge on every step of either node
+    from props import c01 as _c01
+    _c01.sys_replay(ctx, prefixes=["C03."], n_quick=10, n_thorough=60)
     if not ctx.quick():
         # the repository's own 275 tests, run with the trace hook: every transition they execute is judged
         stages.repo_suite_traces(ctx, ["C03."])
